@@ -48,6 +48,20 @@ def rand_shape(rnd):
     return ("circ", [round(rnd.uniform(5, 50), 1), round(rnd.uniform(5, 50), 1), r])
 
 
+def enter_commands(shape, first):
+    """G-code that homes (first time) and moves the tool to the centre of a finite region: an exclusion episode is open then."""
+    kind, p = shape
+    if not all(math.isfinite(float(v)) for v in p):
+        return []
+    if kind == "rect":
+        x, y = (float(p[0]) + float(p[2])) / 2.0, (float(p[1]) + float(p[3])) / 2.0
+    else:
+        if float(p[2]) < 0:
+            return []
+        x, y = float(p[0]), float(p[1])
+    return ([["g", "G28"]] if first else []) + [["g", "G1 X%.3f Y%.3f F3000" % (x, y)]]
+
+
 def rand_shape_c13(rnd):
     """C13 is about the list, not the geometry: now and then an open-ended region (an infinite coordinate, which JSON clients write
     as 1e999) - equal to itself, so the list model can still be compared."""
@@ -100,20 +114,34 @@ class C13(Monitor):
             dict(clear=rnd.choice(RAW_BOOLS), shrink=rnd.choice(RAW_BOOLS))
         settings["debug"] = rnd.random() < 0.33
         first = dict(settings)
+        shape_of = {}
+        homed = [False]
         for _ in range(rnd.randint(8, 45)):
             t = rnd.random()
             anon = rnd.random() < 0.12
+            if shape_of and rnd.random() < 0.08:
+                # the job's G-code takes the tool into one of the regions (if a job is running: an episode opens), or out again
+                if rnd.random() < 0.7:
+                    cmds = enter_commands(shape_of[rnd.choice(sorted(shape_of, key=repr))], True)
+                else:
+                    cmds = [["g", "G28"], ["g", "G1 X190 Y190 F3000"]]
+                if cmds:
+                    steps.extend(cmds)
+                if rnd.random() < 0.2:
+                    steps.append(["script", "gcode", "afterPrintDone"])
             if t < 0.25:
                 n += 1
                 rid = rnd.choice(["id%d" % n, "id%d" % n, None, n, "", 0])      # falsy but non-null ids are ids too
+                _shape = rand_shape_c13(rnd)
                 if ids and rnd.random() < 0.15:
                     # an id that differs from an existing one in letter case / type only: a different id
                     other = rnd.choice(ids)
                     rid = (other.upper() if other.upper() != other else other.title()) if isinstance(other, str) and other \
                         else (str(other) if isinstance(other, int) else "ID%d" % n)
-                steps.append(["api", "addExcludeRegion", payload_of(rand_shape_c13(rnd), rid), anon])
+                steps.append(["api", "addExcludeRegion", payload_of(_shape, rid), anon])
                 if rid is not None and not anon:
                     ids.append(rid)
+                    shape_of.setdefault(rid, _shape)
             elif t < 0.35 and ids:
                 steps.append(["api", "addExcludeRegion", payload_of(rand_shape_c13(rnd), rnd.choice(ids)), anon])
             elif t < 0.45 and ids:
@@ -149,6 +177,7 @@ class C13(Monitor):
                 steps.append(["event", EV_FILE])
             elif t < 0.9:
                 steps.append(["event", EV_START])
+                homed[0] = False
             elif t < 0.95:
                 steps.append(["event", rnd.choice(EV_END)])
             elif t < 0.96:
@@ -266,6 +295,18 @@ class C13(Monitor):
                 stats["c13_settings_saves"] += 1
             elif st[0] == "at":
                 p.at(st[1], st[2])
+            elif st[0] == "g":
+                try:
+                    p.gcode(st[1])
+                except Exception:  # noqa: B902
+                    stats["c13_gcode_raised"] += 1          # e.g. a move before homing: totality is C09's business
+                if p.state.excluding:
+                    stats["c13_steps_with_open_episode"] += 1
+            elif st[0] == "script":
+                try:
+                    p.script(st[1], st[2])
+                except Exception:  # noqa: B902
+                    stats["c13_gcode_raised"] += 1
             elif st[0] == "get":
                 body = p.api_get()
                 stats["c13_get_checked"] += 1
@@ -437,7 +478,12 @@ class C12(Monitor):
             shapes["r%d" % n] = rand_shape(rnd)
             steps.append(["api", "addExcludeRegion", payload_of(shapes["r%d" % n], "r%d" % n)])
         steps.append(["event", EV_START])
-        for _ in range(rnd.randint(4, 25)):
+        if rnd.random() < 0.3:
+            steps += enter_commands(shapes[sorted(shapes)[0]], True)
+        hook_at = rnd.randint(2, 20) if rnd.random() < 0.15 else -1
+        for _n in range(rnd.randint(4, 25)):
+            if _n == hook_at:
+                steps.append(["script", "gcode", "afterPrintDone"])      # the end script is rendered before the end event arrives
             t = rnd.random()
             if t < 0.7 and shapes:
                 rid = rnd.choice(sorted(shapes))
@@ -518,6 +564,21 @@ class C12(Monitor):
             if st[0] == "at":
                 p.at(st[1], st[2])
                 stats["c12_at_commands"] += 1
+                continue
+            if st[0] == "g":
+                try:
+                    p.gcode(st[1])
+                except Exception:  # noqa: B902
+                    pass
+                if p.state.excluding:
+                    stats["c12_steps_with_open_episode"] += 1
+                continue
+            if st[0] == "script":
+                try:
+                    p.script(st[1], st[2])
+                except Exception:  # noqa: B902
+                    pass
+                stats["c12_script_hook_calls"] += 1
                 continue
             cmd, data = st[1], st[2]
             before = p.regions()
